@@ -134,4 +134,341 @@ theorem tracks_of_quiet {hostKey : Nat} {st st' : St} {e : List Ev}
   intro j
   rw [hq, hc]
 
+/-! ## The state machine, function by function -/
+
+@[simp] theorem credOf_net (st : St) (n : Net) (j : Nat) : credOf { st with net := n } j = credOf st j := rfl
+
+theorem credOf_putRow (st : St) (id : Nat) (t : Tok) (j : Nat) :
+    credOf (putRow st id t) j = if j = id then t.cred else credOf st j := by
+  unfold credOf putRow upd
+  by_cases h : j = id <;> simp [h]
+
+theorem checkOnline_spec (w : World) (n : Net) :
+    (checkOnline w n).2.2 = [] ∨ (checkOnline w n).2.2 = [.probe] := by
+  cases n <;> simp [checkOnline, attemptOnline] <;> split <;> simp
+
+theorem checkOnlineNow_spec (w : World) (n : Net) :
+    (checkOnlineNow w n).2.2 = [] ∨ (checkOnlineNow w n).2.2 = [.probe] := by
+  cases n <;> simp [checkOnlineNow, attemptOnline] <;> split <;> simp
+
+/-- what `get_usertoken` guarantees -/
+def GetOk (hostKey : Nat) (st : St) (id : Nat) (res : St × Option Tok × List Ev) : Prop :=
+  Tracks hostKey st res.2.2 res.1 ∧ res.1.sess = st.sess ∧
+    ∀ tok, res.2.1 = some tok → res.1.nx id = false ∧ ∃ r, res.1.cache id = some r ∧ r.tok = tok
+
+theorem refresh_spec (hostKey : Nat) (w : World) (st : St) (id : Nat) (hnx : st.nx id = false) :
+    GetOk hostKey st id (refreshUsertoken w st id) := by
+  unfold refreshUsertoken unixUserGet getCached
+  simp only [hnx]
+  rcases checkOnline_spec w st.net with he | he
+  all_goals
+    rcases hco : checkOnline w st.net with ⟨n', on, evs⟩
+    rw [hco] at he
+    simp at he
+    subst he
+    cases on
+    · cases hc : st.cache id <;>
+        simp [GetOk, offlineState, refreshAction, Tracks, credOf, expStep, hnx, hc, List.foldl]
+    · cases htok : w.token id with
+      | inl v =>
+        cases hc : st.cache id <;>
+          simp [GetOk, refreshAction, Tracks, credOf_putRow, expStep, hnx, hc, List.foldl, getCarriesKeys, carry, putRow, upd]
+        all_goals (intro j; by_cases h : j = id <;> first | (subst h; simp [credOf, upd, hc]) | simp [credOf, upd, h, Ne.symm h])
+      | inr r =>
+        cases r <;> cases hc : st.cache id <;>
+          simp [GetOk, refreshAction, replyState, replyNet, applyNet, Tracks, credOf, expStep, hnx, hc, List.foldl, upd]
+        all_goals (intro j; by_cases h : j = id <;> first | (subst h; simp [credOf, upd, hc]) | simp [credOf, upd, h, Ne.symm h])
+
+theorem getUsertoken_spec (hostKey : Nat) (w : World) (st : St) (id : Nat) :
+    GetOk hostKey st id (getUsertoken w st id) := by
+  unfold getUsertoken
+  cases hnx : st.nx id
+  · cases hc : st.cache id with
+    | none =>
+      have := refresh_spec hostKey w st id hnx
+      simpa [getCached, hnx, hc] using this
+    | some r =>
+      cases hex : r.expired
+      · simp [getCached, hnx, hc, hex, GetOk, Tracks]
+      · have := refresh_spec hostKey w st id hnx
+        simpa [getCached, hnx, hc, hex] using this
+  · simp [getCached, hnx, GetOk, Tracks]
+
+/-- what `pam_account_authenticate_init` guarantees -/
+theorem authInit_spec (hostKey : Nat) (w : World) (st : St) (id : Nat) :
+    match authInit w st id with
+    | (st', s, _, e) =>
+      Tracks hostKey st e st' ∧ st'.sess = st.sess ∧
+        (∀ i snap, s = some (.offline i snap) →
+          i = id ∧ st'.net ≠ .online ∧ snap.cred.isSome = true ∧ st'.nx id = false ∧
+            ∃ r, st'.cache id = some r ∧ r.tok = snap) ∧
+        (∀ i, s = some (.online i) → i = id) := by
+  have hg := getUsertoken_spec hostKey w st id
+  unfold authInit
+  rcases hgu : getUsertoken w st id with ⟨st1, t, e1⟩
+  rw [hgu] at hg
+  obtain ⟨htr, hsess, htok⟩ := hg
+  simp only at htr hsess htok
+  cases t with
+  | none =>
+    rcases hcn : checkOnlineNow w st1.net with ⟨n2, on, e2⟩
+    have he2 := checkOnlineNow_spec w st1.net
+    rw [hcn] at he2
+    simp at he2
+    simp only [hcn]
+    refine ⟨?_, hsess, ?_, ?_⟩
+    · refine Tracks.trans htr (tracks_of_quiet ?_ (fun j => rfl))
+      rcases he2 with rfl | rfl
+      · exact quiet_nil _
+      · exact quiet_probe _
+    · intro i snap h; simp at h
+    · intro i h; simp at h
+  | some t =>
+    obtain ⟨hnx, r, hr, hrt⟩ := htok t rfl
+    cases hcred : t.cred.isSome
+    · rcases hcn : checkOnlineNow w st1.net with ⟨n2, on, e2⟩
+      have he2 := checkOnlineNow_spec w st1.net
+      rw [hcn] at he2
+      simp at he2
+      have hq : Quiet hostKey e2 := by
+        rcases he2 with rfl | rfl
+        · exact quiet_nil _
+        · exact quiet_probe _
+      cases on <;>
+        simp [hasOffline, initProbe, initGoesOnline, offlineInitNeedsCreds, hcred, hcn, hsess] <;>
+        exact Tracks.trans htr (tracks_of_quiet hq (fun j => rfl))
+    · cases hnet : decide (st1.net = Net.online) <;>
+        simp [hasOffline, initProbe, initGoesOnline, offlineInitNeedsCreds, hcred, hnet, hsess]
+      all_goals (first | exact htr | exact ⟨htr, by simpa using hnet, hnx, r, hr, hrt⟩)
+
+theorem onlineStep_spec (hostKey : Nat) (w : World) (st : St) (id cred : Nat) :
+    match onlineStep hostKey w st id cred with
+    | (st', r, e) =>
+      Tracks hostKey st e st' ∧ st'.sess = st.sess ∧ st'.net = st.net ∧
+        (r = .success → Ev.auth id cred true ∈ e) ∧
+        ((w.auth id cred).1 ≠ .token → st' = st ∧ r ≠ .success) := by
+  unfold onlineStep
+  rcases hau : w.auth id cred with ⟨cls, v⟩
+  cases cls <;> cases hk : w.kdfOk <;>
+    simp [finish, onlineOut, pamOf, successWrites, authUpdatesPw, authCarriesKeys, Tracks, expStep, List.foldl,
+      credOf_putRow, updateCached_ok, updateCached_fail, putRow, hk]
+  all_goals (intro j; by_cases h : id = j <;> first | (subst h; simp [credOf, upd]) | simp [credOf, upd, h, Ne.symm h])
+
+theorem offlineStep_spec (hostKey : Nat) (st : St) (id : Nat) (snap : Tok) (cred : Nat)
+    (hnx : st.nx id = false) (hrow : ∃ r, st.cache id = some r ∧ r.tok = snap) :
+    match offlineStep hostKey st id snap cred with
+    | (st', r) =>
+      Tracks hostKey st [] st' ∧ st'.sess = st.sess ∧ st'.net = st.net ∧
+        (r = .success ↔ checkCached hostKey (credOf st id) cred = true) := by
+  obtain ⟨r, hr, hrt⟩ := hrow
+  have hcred : credOf st id = snap.cred := by simp [credOf, hr, hrt]
+  unfold offlineStep
+  cases hchk : checkCached hostKey snap.cred cred <;>
+    simp [finish, offlineOnMatch, offlineOnMiss, pamOf, successWrites, offlineWritesCurrentElseSession,
+      Tracks, getCached, hnx, hr, hcred, hchk, putRow]
+  intro j
+  by_cases h : j = id
+  · subst h; simp [credOf, upd, hr]
+  · simp [credOf, upd, h]
+
+/-- one sequential login attempt -/
+theorem auth_spec (hostKey : Nat) (w : World) (st : St) (id cred : Nat)
+    {w' : World} {st' : St} {r : Reply} {e : List Ev}
+    (h : step hostKey w st (.auth id cred) = (w', st', r, e)) :
+    w' = w ∧ Tracks hostKey st e st' ∧ st'.sess = st.sess ∧
+      (∀ i res, r = .auth i .offline (some res) →
+        st'.net ≠ .online ∧ (res = .success ↔ checkCached hostKey (credOf st' id) cred = true)) ∧
+      (∀ i, r = .auth i .online (some .success) → Ev.auth id cred true ∈ e) ∧
+      (∀ i res, r = .auth i .none (some res) → res ≠ .success) := by
+  have hi := authInit_spec hostKey w st id
+  simp only [step] at h
+  rcases hai : authInit w st id with ⟨st1, s, ir, e1⟩
+  rw [hai] at hi h
+  obtain ⟨htr, hsess, hoff, hon⟩ := hi
+  cases ir with
+  | password =>
+    cases s with
+    | none =>
+      simp [authStep, Session.path] at h
+      obtain ⟨rfl, rfl, rfl, rfl⟩ := h
+      simp [htr, hsess]
+    | some ss =>
+      cases ss with
+      | closed =>
+        simp [authStep, Session.path] at h
+        obtain ⟨rfl, rfl, rfl, rfl⟩ := h
+        simp [htr, hsess]
+      | online i =>
+        have hid := hon i rfl
+        subst hid
+        have ho := onlineStep_spec hostKey w st1 i cred
+        rcases hos : onlineStep hostKey w st1 i cred with ⟨st2, r2, e2⟩
+        rw [hos] at ho
+        obtain ⟨htr2, hs2, _, hsucc, _⟩ := ho
+        simp [authStep, Session.path, hos] at h
+        obtain ⟨rfl, rfl, rfl, rfl⟩ := h
+        refine ⟨rfl, Tracks.trans htr htr2, by simp [hs2, hsess], ?_, ?_, ?_⟩
+        · intro i res hh; simp at hh
+        · intro i' hh
+          simp at hh
+          exact List.mem_append_right _ (hsucc hh.2)
+        · intro i' res hh; simp at hh
+      | offline i snap =>
+        obtain ⟨hid, hnet, _, hnx, hrow⟩ := hoff i snap rfl
+        subst hid
+        have ho := offlineStep_spec hostKey st1 i snap cred hnx hrow
+        rcases hos : offlineStep hostKey st1 i snap cred with ⟨st2, r2⟩
+        rw [hos] at ho
+        obtain ⟨htr2, hs2, hn2, hiff⟩ := ho
+        have hc2 : credOf st2 i = credOf st1 i := by simpa using htr2 i
+        simp [authStep, Session.path, hos] at h
+        obtain ⟨rfl, rfl, rfl, rfl⟩ := h
+        refine ⟨rfl, by simpa using Tracks.trans htr htr2, by simp [hs2, hsess], ?_, ?_, ?_⟩
+        · intro i' res hh
+          simp at hh
+          obtain ⟨_, rfl⟩ := hh
+          exact ⟨by rw [hn2]; exact hnet, by rw [hc2]; exact hiff⟩
+        · intro i' hh; simp at hh
+        · intro i' res hh; simp at hh
+  | unknown =>
+    simp at h
+    obtain ⟨rfl, rfl, rfl, rfl⟩ := h
+    simp [htr, hsess]
+  | err =>
+    simp at h
+    obtain ⟨rfl, rfl, rfl, rfl⟩ := h
+    simp [htr, hsess]
+/-! ## Histories -/
+
+theorem step_tracks (hostKey : Nat) (w : World) (st : St) (op : Op) (hseq : op.sequential = true)
+    {w' : World} {st' : St} {r : Reply} {e : List Ev}
+    (h : step hostKey w st op = (w', st', r, e)) : Tracks hostKey st e st' := by
+  cases op with
+  | auth id cred => exact (auth_spec hostKey w st id cred h).2.1
+  | init _ _ => simp [Op.sequential] at hseq
+  | stepS _ _ => simp [Op.sequential] at hseq
+  | lookup id =>
+    have hg := getUsertoken_spec hostKey w st id
+    simp only [step] at h
+    rcases hgu : getUsertoken w st id with ⟨st1, t, e1⟩
+    rw [hgu] at hg h
+    simp at h
+    obtain ⟨rfl, rfl, rfl, rfl⟩ := h
+    exact hg.1
+  | plant id b =>
+    simp only [step] at h
+    cases hc : st.cache id with
+    | none =>
+      rw [hc] at h
+      simp at h
+      obtain ⟨rfl, rfl, rfl, rfl⟩ := h
+      exact Tracks.refl _ _
+    | some row =>
+      rw [hc] at h
+      simp at h
+      obtain ⟨rfl, rfl, rfl, rfl⟩ := h
+      intro j
+      by_cases hj : j = id
+      · subst hj; simp [credOf, upd, expStep, List.foldl]
+      · simp [credOf, upd, expStep, List.foldl, hj, Ne.symm hj]
+  | clearCache =>
+    simp [step] at h
+    obtain ⟨rfl, rfl, rfl, rfl⟩ := h
+    intro j
+    simp [credOf, clearCache, expStep, List.foldl]
+  | invalidate =>
+    simp [step] at h
+    obtain ⟨rfl, rfl, rfl, rfl⟩ := h
+    intro j
+    simp [credOf, invalidate, List.foldl]
+    cases st.cache j <;> simp
+  | _ =>
+    simp [step] at h
+    obtain ⟨rfl, rfl, rfl, rfl⟩ := h
+    exact Tracks.refl _ _
+
+/-- the invariant of sequential histories: the held credentials are what the events say -/
+def Inv (hostKey : Nat) (st : St) (evs : List Ev) : Prop :=
+  ∀ j, credOf st j = expected hostKey j evs
+
+theorem Inv.step {hostKey : Nat} {st st' : St} {evs e : List Ev}
+    (hinv : Inv hostKey st evs) (ht : Tracks hostKey st e st') : Inv hostKey st' (evs ++ e) := by
+  intro j
+  rw [ht j, hinv j, expected_append]
+
+theorem execFrom_inv (hostKey : Nat) (ops : List Op) :
+    ∀ (w : World) (st : St) (evs : List Ev), (∀ op ∈ ops, op.sequential = true) → Inv hostKey st evs →
+      Inv hostKey (execFrom hostKey w st evs ops).2.1 (execFrom hostKey w st evs ops).2.2 := by
+  induction ops with
+  | nil => intro w st evs _ h; simpa [execFrom] using h
+  | cons op rest ih =>
+    intro w st evs hseq hinv
+    rcases hs : step hostKey w st op with ⟨w', st', r, e⟩
+    have ht := step_tracks hostKey w st op (hseq op (by simp)) hs
+    simp only [execFrom, hs]
+    exact ih w' st' (evs ++ e) (fun o ho => hseq o (by simp [ho])) (hinv.step ht)
+
+theorem reachable_inv {hostKey : Nat} {w : World} {st : St} {evs : List Ev}
+    (h : Reachable hostKey w st evs) : Inv hostKey st evs := by
+  obtain ⟨ops, hseq, hex⟩ := h
+  have := execFrom_inv hostKey ops World.init St.init [] hseq (by intro j; simp [credOf, St.init, expected])
+  unfold exec at hex
+  rw [hex] at this
+  exact this
+/-! ## The expected credential and the most recent verification -/
+
+/-- the expected credential, when sealed here, is sealed from the most recently verified password -/
+def Agree (hostKey : Nat) (accE : Option Blob) (accL : Option Nat) : Prop :=
+  ∀ p, accE = some (sealed hostKey p) → accL = some p
+
+theorem sealed_inj {hostKey p q : Nat} (h : sealed hostKey p = sealed hostKey q) : p = q := by
+  simpa [sealed] using h
+
+theorem agree_step (hostKey id : Nat) (accE : Option Blob) (accL : Option Nat) (e : Ev)
+    (ha : Agree hostKey accE accL) (hp : ∀ i b, e = .planted i b → NotSealedHere hostKey b) :
+    Agree hostKey (expStep hostKey id accE e) (lastVerifiedStep id accL e) := by
+  intro p
+  cases e with
+  | auth i q ok =>
+    cases ok
+    · simpa [expStep, lastVerifiedStep] using ha p
+    · by_cases hi : i = id
+      · simp [expStep, lastVerifiedStep, hi]
+        intro h
+        exact sealed_inj h
+      · simpa [expStep, lastVerifiedStep, hi] using ha p
+  | kdfFailed i =>
+    by_cases hi : i = id
+    · simp [expStep, lastVerifiedStep, hi]
+    · simpa [expStep, lastVerifiedStep, hi] using ha p
+  | purged i =>
+    by_cases hi : i = id
+    · simp [expStep, lastVerifiedStep, hi]
+    · simpa [expStep, lastVerifiedStep, hi] using ha p
+  | cleared => simp [expStep, lastVerifiedStep]
+  | planted i b =>
+    by_cases hi : i = id
+    · simp [expStep, lastVerifiedStep, hi]
+      intro h
+      exact absurd h (hp i b rfl p)
+    · simpa [expStep, lastVerifiedStep, hi] using ha p
+  | probe => simpa [expStep, lastVerifiedStep] using ha p
+  | tokReq i => simpa [expStep, lastVerifiedStep] using ha p
+
+theorem agree_foldl (hostKey id : Nat) (evs : List Ev) :
+    ∀ (accE : Option Blob) (accL : Option Nat), Agree hostKey accE accL →
+      (∀ i b, Ev.planted i b ∈ evs → NotSealedHere hostKey b) →
+      Agree hostKey (evs.foldl (expStep hostKey id) accE) (evs.foldl (lastVerifiedStep id) accL) := by
+  induction evs with
+  | nil => intro accE accL h _; simpa using h
+  | cons e rest ih =>
+    intro accE accL h hp
+    simp only [List.foldl]
+    exact ih _ _ (agree_step hostKey id accE accL e h (fun i b he => hp i b (by simp [he])))
+      (fun i b hm => hp i b (by simp [hm]))
+
+theorem expected_sealed_is_last {hostKey id p : Nat} {evs : List Ev}
+    (hp : ∀ i b, Ev.planted i b ∈ evs → NotSealedHere hostKey b)
+    (h : expected hostKey id evs = some (sealed hostKey p)) : lastVerified id evs = some p :=
+  agree_foldl hostKey id evs none none (by intro p h; simp at h) hp p h
 end Kanidm.OfflineCache
